@@ -61,6 +61,8 @@ class FragmentGen(G.SheetGen):
             if len(self.rows) >= self.n:
                 break
             prev = self.nodes[-1]
+            if prev["id"] == "start":
+                break       # `from = start` means "nothing leads here" even when a row is called start: no explicit edge from it
             saved = self._edges
             self._edges = lambda allow_blank_from=True, prev=prev: [(prev["id"], dict(blank))]
             try:
